@@ -844,6 +844,90 @@ static void gen_signing(int maxhops)
 						snprintf(what, sizeof(what), "a path built hop by hop from generated signatures validates as %s", rc_name(rc));
 						c12_report("signing|built-path-not-valid", what, crumb);
 					}
+					/*
+					 * the same path once more, built the way a router builds it: with the library's own
+					 * list helpers, one hop at a time, each generated segment prepended as it is
+					 */
+					{
+						struct rtr_bgpsec_nlri *nl = rtr_bgpsec_nlri_new(40);
+						struct rtr_bgpsec *rb;
+						struct spki_table t;
+						bool built_ok = true;
+
+						nl->afi = p.nlri_afi;
+						nl->safi = p.safi;
+						nl->nlri_len = p.nlri_len;
+						memcpy(nl->nlri, p.nlri, 40);
+						rb = rtr_bgpsec_new(p.alg, p.safi, p.afi, 64999, 0, nl);
+						for (int k = n - 1; k >= 0 && built_ok; k--) {
+							struct rtr_signature_seg *seg = NULL;
+
+							rtr_bgpsec_prepend_sec_path_seg(rb, rtr_bgpsec_new_secure_path_seg(p.hop[k].pcount, p.hop[k].flags, p.hop[k].asn));
+							rb->target_as = k == 0 ? p.target_as : p.hop[k - 1].asn;
+							if (rtr_bgpsec_generate_signature(rb, KEYS[KEYIDX[k]].priv_der, &seg) != RTR_BGPSEC_SUCCESS || !seg) {
+								built_ok = false;
+								break;
+							}
+							/* the signer names its key: the generated segment comes without an SKI */
+							memcpy(seg->ski, KEYS[KEYIDX[k]].ski, SKI_SIZE);
+							if (rtr_bgpsec_prepend_sig_seg(rb, seg) != RTR_BGPSEC_SUCCESS)
+								built_ok = false;
+						}
+						if (built_ok && (rb->path_len != n || rb->sigs_len != n))
+							built_ok = false;
+						if (built_ok) {
+							/* taking the newest segments off and putting them back must give the same path */
+							struct rtr_signature_seg *ts = rtr_bgpsec_pop_signature_seg(rb);
+							struct rtr_secure_path_seg *tp = rtr_bgpsec_pop_secure_path_seg(rb);
+
+							if (!ts || !tp || rb->path_len != n - 1 || rb->sigs_len != n - 1)
+								built_ok = false;
+							if (tp)
+								rtr_bgpsec_prepend_sec_path_seg(rb, tp);
+							if (ts && rtr_bgpsec_prepend_sig_seg(rb, ts) != RTR_BGPSEC_SUCCESS)
+								built_ok = false;
+						}
+						if (!built_ok) {
+							c12_report("signing|helpers|construction-failed",
+								   "building the path with rtr_bgpsec_prepend_sec_path_seg / generate_signature / prepend_sig_seg / pop failed or left wrong segment counts",
+								   crumb);
+						} else {
+							lib_keys(&t, &ks);
+							rc = rtr_bgpsec_validate_as_path(rb, &t);
+							spki_table_free(&t);
+							if (rc != RTR_BGPSEC_VALID) {
+								char what[220];
+
+								snprintf(what, sizeof(what),
+									 "a path built hop by hop with the library's list helpers from generated signatures validates as %s", rc_name(rc));
+								c12_report("signing|helpers|built-path-not-valid", what, crumb);
+							}
+							/* and a copy assembled oldest-last with the append helpers and rtr_bgpsec_new_signature_seg */
+							struct rtr_bgpsec_nlri *nl2 = rtr_bgpsec_nlri_new(40);
+							struct rtr_bgpsec *rb2;
+							bool ok2 = true;
+
+							nl2->afi = nl->afi;
+							nl2->safi = nl->safi;
+							nl2->nlri_len = nl->nlri_len;
+							memcpy(nl2->nlri, p.nlri, 40);
+							rb2 = rtr_bgpsec_new(p.alg, p.safi, p.afi, 64999, p.target_as, nl2);
+							for (struct rtr_secure_path_seg *sp = rb->path; sp; sp = sp->next)
+								rtr_bgpsec_append_sec_path_seg(rb2, rtr_bgpsec_new_secure_path_seg(sp->pcount, sp->flags, sp->asn));
+							for (struct rtr_signature_seg *sg = rb->sigs; sg; sg = sg->next)
+								if (rtr_bgpsec_append_sig_seg(rb2, rtr_bgpsec_new_signature_seg(sg->ski, sg->sig_len, sg->signature)) != RTR_BGPSEC_SUCCESS)
+									ok2 = false;
+							lib_keys(&t, &ks);
+							rc = ok2 ? rtr_bgpsec_validate_as_path(rb2, &t) : RTR_BGPSEC_ERROR;
+							spki_table_free(&t);
+							if (rc != RTR_BGPSEC_VALID)
+								c12_report("signing|helpers|appended-copy-not-valid",
+									   "a copy of the built path assembled with rtr_bgpsec_append_sec_path_seg / append_sig_seg / new_signature_seg does not validate as VALID",
+									   crumb);
+							rtr_bgpsec_free(rb2);
+						}
+						rtr_bgpsec_free(rb);
+					}
 				}
 				if (v_want_sample() && idx % 401 == 7)
 					v_sample(crumb);
